@@ -498,6 +498,38 @@ fn brent_stays_in_bracket() -> Option<String> {
     None
 }
 
+/// C03 / C06: problems whose time scale is tiny (femtoseconds in SI units): absolute thresholds must not decide anything
+fn tiny_time_scale() -> Option<String> {
+    struct Osc { w: f64 }
+    impl IVP for Osc { fn ode(&self, t: f64, _y: &[f64], d: &mut [f64]) { d[0] = self.w * (self.w * t).cos(); } }
+    // (a) a span shorter than 1e-15 is still an interval to cover
+    for m in [Method::RK4, Method::RK23, Method::DOPRI5, Method::DOP853, Method::RADAU, Method::BDF] {
+        let f = Osc { w: 1e15 };
+        let xe = 5e-16;
+        if let Ok(s) = solve_ivp(&f, 0.0, xe, &[0.0], Options::builder().method(m.clone()).build()) {
+            let last = *s.t.last().unwrap();
+            if s.status == Status::Success && last != xe {
+                return Some(format!("{:?} on [0, {:e}] (y' = w cos(w t), w = 1e15): status Success but the last sample is t = {:e}, y = {:?}; y(xend) = {:e}", m, xe, last, s.y.last().unwrap(), (1e15f64 * xe).sin()));
+            }
+        }
+    }
+    // (b) sol(t_i) reproduces every stored sample, whatever the step length
+    for m in [Method::RK4, Method::DOPRI5, Method::RADAU, Method::BDF] {
+        let f = Osc { w: 1e12 };
+        let xe = 6e-12;
+        if let Ok(s) = solve_ivp(&f, 0.0, xe, &[0.0], Options::builder().method(m.clone()).dense_output(true).rtol(1e-8).atol(1e-10).build()) {
+            for (i, ti) in s.t.iter().enumerate() {
+                if let Ok(v) = s.sol(*ti) {
+                    if (v[0] - s.y[i][0]).abs() > 1e-6 {
+                        return Some(format!("{:?} on [0, {:e}] (y = sin(w t), w = 1e12), dense output: sample {} is (t, y) = ({:e}, {:e}) but sol(t) = {:e}", m, xe, i, ti, s.y[i][0], v[0]));
+                    }
+                } else { return Some(format!("{:?}: sol({:e}) is an error although the time is a stored sample", m, ti)); }
+            }
+        }
+    }
+    None
+}
+
 fn main() {
     let which = std::env::args().nth(1).unwrap_or_default();
     let r = match which.as_str() {
@@ -508,6 +540,7 @@ fn main() {
         "default_mass" => default_mass(),
         "matrix_dense_model" => matrix_dense_model(),
         "lu_small" => lu_small(),
+        "tiny_time_scale" => tiny_time_scale(),
         "brent_stays_in_bracket" => brent_stays_in_bracket(),
         "dense_end_points" => dense_end_points(),
         "complex_multiplier_modulus" => complex_multiplier_modulus(),
